@@ -361,3 +361,9 @@ Example C06_nonvacuous_fan_out :
   | None => False
   end.
 Proof. vm_compute. repeat split; reflexivity. Qed.
+
+(* Print Assumptions for every theorem above that did not have its own line yet *)
+Print Assumptions C06_parent_and_child_v0_refuted.
+Print Assumptions C06_unvalidated_panics_v0_refuted.
+Print Assumptions C06_filter_clone_nil_is_the_source.
+Print Assumptions C06_shallow_clone_refuted.
